@@ -213,6 +213,10 @@ def translate(repo):
     src = open(repo + "/pyemv/cvn.py").read()
     tree = ast.parse(src)
     import pynorm
+    try:
+        pynorm.check_package(repo); pynorm.check_bindings(tree)               # every name the translator reads by its spelling means what it says
+    except pynorm.Binding as e:
+        raise Unsupported(f"cvn: {e}")
     tree = pynorm.normalise_light(tree)           # module constants, chained comparisons, conditional expressions
     out = ["import PyemvModel.Cvn",
            "/-! GENERATED by harness/translate_cvn.py from pyemv/cvn.py — do not edit. -/",
